@@ -269,7 +269,21 @@ func c15Targets(p *core.Prog, r *core.Run, pre string) {
 			}
 		}
 	}
-	viaFilter := addrV != nil && addrV.Op == "call" && addrV.Fn != nil && addrV.Fn.Parent() == fn
+	// the address: what the filter returned - the helper's result, or with the
+	// helper inlined the pair formed by AddrPortFrom(AddrFromSlice(ip), port) (or zero)
+	viaFilter := false
+	if addrV != nil {
+		viaFilter = true
+		for _, a := range addrV.Alts() {
+			switch {
+			case a.Op == "call" && a.Fn != nil && inModule(p, a.Fn) && len(callSites(p, core.Closures(a.Fn), `net/netip\.AddrFromSlice`)) == 1:
+			case a.Op == "call" && a.Name == "net/netip.AddrPortFrom" && a.Args[0].Any(func(x *core.Expr) bool { return x.Op == "call" && x.Name == "net/netip.AddrFromSlice" }):
+			case a.Op == "const" && a.Name == "zero":
+			default:
+				viaFilter = false
+			}
+		}
+	}
 	r.Check(pre+".GUARDS", "emit:filters", valid && unseen && set && viaFilter, p.InstrPos(yield.Instr), "yield is dominated by: address passed the family filter and is valid (%v, through the filter helper: %v), address/port pair not seen before (%v), and it is marked seen before the yield (%v)", valid, viaFilter, unseen, set)
 	// what is yielded
 	tgt := 0
@@ -303,14 +317,21 @@ func c15Targets(p *core.Prog, r *core.Run, pre string) {
 }
 
 func c15Family(p *core.Prog, r *core.Run, targets *ssa.Function, pre string) {
+	// the family filter lives where net/netip.AddrFromSlice is called: a literal
+	// of Targets, a helper, or (inlined) the emit helper itself
 	var filt *ssa.Function
-	for _, l := range targets.AnonFuncs {
-		if len(l.Params) == 2 && len(callSites(p, []*ssa.Function{l}, `net/netip\.AddrFromSlice`)) == 1 {
+	for _, l := range core.Closures(targets) {
+		if len(callSites(p, []*ssa.Function{l}, `net/netip\.AddrFromSlice`)) == 1 {
 			filt = l
 		}
 	}
 	if filt == nil {
-		r.Undecided(pre+".GUARDS", "filter", p.Pos(targets.Pos()), "address-family filter literal not found")
+		r.Undecided(pre+".GUARDS", "filter", p.Pos(targets.Pos()), "no conversion of the address with netip.AddrFromSlice found among Targets' literals")
+		return
+	}
+	made := callSites(p, []*ssa.Function{filt}, `net/netip\.AddrPortFrom`)
+	if len(made) != 1 {
+		r.Undecided(pre+".GUARDS", "filter", p.Pos(filt.Pos()), "expected one netip.AddrPortFrom in %s, found %d", p.FuncName(filt), len(made))
 		return
 	}
 	netP := targets.Params[1]
@@ -319,18 +340,13 @@ func c15Family(p *core.Prog, r *core.Run, targets *ssa.Function, pre string) {
 		size  string
 	}{{[]string{`"tcp4"`, `"udp4"`}, "4"}, {[]string{`"tcp6"`, `"udp6"`}, "16"}} {
 		for _, name := range fam.names {
-			// with network == name and len(ip) != size assumed, only the zero AddrPort is returned
+			// with network == name and len(ip) != size assumed, no address/port pair is formed
 			cfg, hits := pruneBy(p, filt, []assumption{
 				cmpAssume("network == "+name, "==", func(e *core.Expr) bool { return e.Val == ssa.Value(netP) }, isConstName(name)),
 				cmpAssume("len(ip) != "+fam.size, "!=", func(e *core.Expr) bool { return e.Op == "call" && e.Name == "len" && e.Args[0].Op == "param" }, isConstName(fam.size)),
 			})
-			ok := len(hits["network == "+name]) > 0 && len(hits["len(ip) != "+fam.size]) > 0
-			for _, ret := range core.Returns(filt) {
-				if cfg.Live(ret.Block()) && p.X(ret.Results[0]).Name != "zero" {
-					ok = false
-				}
-			}
-			r.Check(pre+".GUARDS", "filter:"+strings.Trim(name, `"`), ok, p.Pos(filt.Pos()), "network %s admits only %s-byte addresses", name, fam.size)
+			ok := len(hits["network == "+name]) > 0 && len(hits["len(ip) != "+fam.size]) > 0 && !cfg.Live(made[0].Block())
+			r.Check(pre+".GUARDS", "filter:"+strings.Trim(name, `"`), ok, p.Pos(filt.Pos()), "network %s admits only %s-byte addresses (with another length no address/port pair is formed)", name, fam.size)
 		}
 	}
 }
